@@ -359,13 +359,17 @@ def run(idx: ProgramIndex, rep: Report, tier: str, selftest: bool = True):
             if isinstance(x, ast.Call) and isinstance(x.func, ast.Attribute) and x.func.attr in ("add_", "addcmul_", "sub_") \
                     and is_diag(x.func.value):
                 updates.append((n, x))
+            # out-of-place form: Aprime = torch.diagonal_scatter(Aprime, Aprime.diagonal(...) + diag_add, ...)
+            if isinstance(x, ast.Call) and ((dotted(x.func) or "").split(".")[-1] == "diagonal_scatter"
+                                            or (isinstance(x.func, ast.Attribute) and x.func.attr == "diagonal_scatter")):
+                updates.append((n, x))
         if isinstance(n.ast, ast.AugAssign) and is_diag(n.ast.target):
             updates.append((n, n.ast))
     warn_nodes = {n.id for n in cfg.stmt_nodes() if n.kind == "stmt" and any(
         isinstance(x, ast.Call) and (dotted(x.func) or "").endswith("warn") and "NumericalWarning" in norm(x)
         for x in ast.walk(n.ast))}
     if not updates:
-        rep.error("no in-place diagonal update found in the retry loop (anchor vanished)")
+        rep.error("no update of the working matrix's diagonal found in the retry loop (anchor vanished)")
     for n, x in updates:
         h = cfg.g.copy()
         for w in warn_nodes:
